@@ -98,9 +98,21 @@ TEXT["C08"] = dict(ref="DESIGN.md 4 C08", technique="TLC model checking of the P
     "progressive results in order before the final one, EVENT only between SUBSCRIBED and UNSUBSCRIBED, INVOCATION only between REGISTERED and UNREGISTERED.",
     note=NOTE + "Schedules are those the Go scheduler produces in the bubble (several seeds); the oracle is exhaustive over whatever schedule occurred.")
 
+TEXT["C19"] = dict(ref="DESIGN.md 4 C19", technique="TLA+ reference rules (URI.tla, IDs.tla) model checked against each other + exhaustive bounded enumeration of inputs evaluated by the real functions + TLC validation of every logged application",
+    level="The rule of the statement is written component-wise in spec/URI.tla (no regular expression) and as symbolic id arithmetic in spec/IDs.tla (ids = base + offset with "
+    "base 0 or 2^53, exact under the bound). Leg 1 (MCFuncs.tla): TLC checks the rules against each other over every string up to length 4 and every URI/pattern pair "
+    "(validity lattice, exact meaning, matching sanity) and explores the request id protocol (sender issuing ids with skips, receiver window, replay) around the wrap. "
+    "Conformance: the harness applies ValidURI in all six modes, PrefixMatch, WildcardMatch, IsNewRecvID/UpdateLastRecvID, IDGen.Next (positioned by the verif hook), AsID for every Go "
+    "number type and GlobalID of the current tree to an exhaustively enumerated bounded input space plus seeded longer inputs, logs input and result, and TLC (Funcs.tla) evaluates the "
+    "rule on every logged line; any disagreeing line is a violation with the input as replay.",
+    note="Bounded: strings up to length 4 (quick) / 6 (thorough) over one representative per character class, seeded URIs up to ~25 characters, pairs over {a b .} up to length 4/5, "
+    "id offsets within +-1000 of 0 and 2^53. Non-ASCII white space and fractional floats as ids are left open (statement silent). Trusted: TLC, the symbolic id conversion in harness/funcs_test.go.")
+
 NOT_APPLICABLE = {}
 
 ENGINES = [
+    {"name": "funcs", "path": "/verif/tools/fam_funcs.py; spec/URI.tla IDs.tla MCFuncs.tla Funcs.tla; harness/funcs_test.go",
+     "serves_properties": ["C19"], "kind_free_text": "TLA+ reference rules, exhaustive bounded input enumeration on the real functions, TLC validation of the logged applications"},
     {"name": "hostile", "path": "/verif/tools/families.py run_hostile; spec/Hostile.tla; harness/exec.go hostile()",
      "serves_properties": ["C04"], "kind_free_text": "TLC-enumerated hostile inputs, crash isolation, probe validation against Core.tla"},
     {"name": "core", "path": "/verif/tools/families.py run_core; spec/Core.tla MC.tla Gen.tla Trace.tla; harness/exec.go",
